@@ -638,6 +638,7 @@ def _do_export(ctx, g, disk, op, idx, st, i, cont, members, world, about_to_obse
     kw = {"vertex_spacing": sp, "update_delta": op["update_delta"]}
     for _, s_ in surfs:
         about_to_observe(s_)
+    was_tessellated = [bool(o.tessellator.is_tessellated()) for o, _ in surfs]
     path = "/data/mesh_%d.%s" % (idx % 3, fmt)
     disk.arm(op.get("faults", []) if op["to"] == "file" else [])
     content, outcome = None, "returned"
@@ -676,9 +677,16 @@ def _do_export(ctx, g, disk, op, idx, st, i, cont, members, world, about_to_obse
         content = raw if fmt == "stl_bin" else raw.decode("utf-8")
     # the mesh the objects report now (the writers tessellate the surfaces they write)
     expV, expF = [], []
-    for o, s_ in surfs:
+    for (o, s_), was in zip(surfs, was_tessellated):
         V = [[v.id, list(v.uv), list(v.data)] for v in o.tessellator.vertices]
         F = [list(f.vertex_ids) for f in o.tessellator.faces]
+        # the mesh the writer produced is the tessellation for the requested vertex spacing whenever the writer had to
+        # tessellate: it re-applies the sampling (update_delta) or the surface held no mesh. (With update_delta=False an
+        # existing mesh is legitimately re-used, whatever its spacing.)
+        fresh = op["update_delta"] or not was
+        if V or not s_.trim:
+            check_mesh(ctx, V, F, o, "mesh written by export_%s(vertex_spacing=%d, update_delta=%r)" % (fmt, sp, op["update_delta"]), sig,
+                       expect_spacing=sp if fresh else None, sample=tuple(o.sample_size), trim=s_.trim, id_offset=V[0][0] if V else 0)
         ids = [v[0] for v in V]
         base = ids[0] if ids else 0
         # element ids may legitimately be global after a container tessellation; the file must index the concatenated list
